@@ -140,6 +140,20 @@ def _evaluate(col, p, shape, m, d, mm, dm, data_folded, tag):
             if not np.allclose(np.asarray(osf.data)[~mm], (cstar * m)[~mm], rtol=1e-12, atol=0):
                 col.violation('C11:optimally_scaled_sfs:value', info, '')
     if not data_folded:
+        # --- a model cell that is exactly zero (or slightly negative: numerical noise) where neither spectrum is masked: it stays part of both
+        # totals of the optimal scaling (only the Poisson terms skip it)
+        joint = ~(mm | dm)
+        cells = np.argwhere(joint)
+        if len(cells) >= 2:
+            for zval in (0.0, -1e-9):
+                m0 = m.copy()
+                m0[tuple(cells[len(cells) // 2])] = zval
+                sm0, sd0 = float(m0[joint].sum()), float(d[joint].sum())
+                if sm0 > 0:
+                    got0 = float(Inference.optimal_sfs_scaling(dadi.Spectrum(m0.copy(), mask=mm.copy(), mask_corners=False), dadi.Spectrum(d.copy(), mask=dm.copy(), mask_corners=False)))
+                    col.tick(transitions=1)
+                    if not abs(got0 - sd0 / sm0) <= 1e-12 * max(1.0, abs(sd0 / sm0)):
+                        col.violation('C11:optimal_sfs_scaling:nonpositive_model_cell', dict(info, cell_value=zval), {'got': got0, 'exact': sd0 / sm0})
         # --- corners left unmasked in both spectra (monomorphic classes kept): they are ordinary entries of the Poisson likelihood
         mm_u, dm_u = mm.copy(), dm.copy()
         mm_u.flat[0] = mm_u.flat[-1] = dm_u.flat[0] = dm_u.flat[-1] = False
